@@ -86,7 +86,7 @@ struct Injection {
     at_top: bool,
 }
 
-const N_CONSTRUCTS: u8 = 33;
+const N_CONSTRUCTS: u8 = 35;
 
 fn injection(kind: u8, variant: u8) -> Injection {
     let v = variant as usize;
@@ -121,7 +121,7 @@ fn injection(kind: u8, variant: u8) -> Injection {
         ),
         20 => (vec![], ["@&(0)zzq{}", "@&(~0)zzq{}", "@&(=0)zzq{}", "@&(=~0)zzq{}"][v % 4].into(), Extensions::INTERMEDIATE_PREPARATIONS, "intermediate reference to 0", Stage::Analysis),
         21 => (vec![], ["@&(99)zzq{}", "@&(~99)zzq{}", "@&(=99)zzq{}", "@&(=~99)zzq{}"][v % 4].into(), Extensions::INTERMEDIATE_PREPARATIONS, "intermediate reference out of range", Stage::Analysis),
-        22 => (vec!["Mix zzqa and zzqb."], ["@&(~1)-zzq{}", "@&(1)@zzq{}", "@+&(~1)zzq{}"][v % 3].into(), Extensions::INTERMEDIATE_PREPARATIONS, "intermediate reference with conflicting modifiers", Stage::Analysis),
+        22 => (vec!["Mix zzqa and zzqb."], ["@&(~1)-zzq{}", "@&(1)@zzq{}", "@+&(~1)zzq{}", "@&(~1)+zzq{}", "@&(=~1)+zzq{}"][v % 5].into(), Extensions::INTERMEDIATE_PREPARATIONS, "intermediate reference with conflicting modifiers", Stage::Analysis),
         23 => (vec![], [">> [mode]: bogus", ">> [duplicate]: maybe", ">> [define]: everything"][v % 3].into(), Extensions::MODES, "bad mode value", Stage::Analysis),
         24 => (vec![], ["~zzq{5%kg}", "~{2%cups}", "~zzq{1%cm}"][v % 3].into(), Extensions::ADVANCED_UNITS, "non-time timer unit", Stage::Analysis),
         25 => (vec![], ["~zzq{5%zorks}", "~{2%blinks}"][v % 2].into(), Extensions::ADVANCED_UNITS, "unknown timer unit", Stage::Analysis),
@@ -130,6 +130,8 @@ fn injection(kind: u8, variant: u8) -> Injection {
         28 => (vec![], ["@zzq{4294967296/2}", "@zzq{1 99999999999/2%kg}"][v % 2].into(), e, "integer overflow in a fraction", Stage::Parse),
         29 => (vec![], String::new(), e, "malformed front matter", Stage::Analysis),
         31 => (vec![], ["@zzq{1/0-2%cups}", "@zzq{1-1/0}", "#zzq{1-2 1/0}", "~zzq{1-1/0%min}", "@zzq{2 1/0 - 3%kg}"][v % 5].into(), Extensions::RANGE_VALUES, "zero denominator", Stage::Parse),
+        33 => (vec![], ["@zzq{1/0 kg}", "@zzq{2 1/0 cups}", "@zzq{1-3/0 tbsp}", "~zzq{1/0 min}", "@zzq{=1/0 kg}"][v % 5].into(), Extensions::ADVANCED_UNITS | Extensions::RANGE_VALUES, "zero denominator", Stage::Parse),
+        34 => (vec!["Mix zzqa and zzqb."], ["@&(1)&(1)zzq{}", "#&(1)&(1)zzq{}", "@&(~1)?&(1)zzq{}"][v % 3].into(), Extensions::INTERMEDIATE_PREPARATIONS, "duplicate modifier", Stage::Parse),
         32 => (vec![">> [mode]: steps"], ["@zzq{}", "#zzq{}", "@zzq{1%kg}", "@zzq"][v % 4].into(), Extensions::MODES, "dangling reference", Stage::Analysis),
         _ => (
             // no step precedes it in its section, only text paragraphs
